@@ -159,6 +159,8 @@ def generate(seed, tier, index, focus):
                           "style": rand_style(rng)})
         elif r < 0.5:
             steps.append({"op": rng.choice(["settle", "gap", "gap"]), "dt": rng.choice([0.0, 0.001, 0.01, 1.0])})
+            if steps[-1]["op"] == "gap" and rng.random() < 0.5:
+                steps[-1]["iters"] = rng.randint(1, 6)
         else:
             from_client = rng.random() < (0.65 if focus == "C04" else 0.3)
             if from_client:
@@ -471,7 +473,7 @@ def execute_level2(scen):
                     msg = build_message(spec)
                     sim.do(router.process_message, msg, d)
                 elif op == "gap":
-                    sim.run_for(st["dt"])
+                    sim.gap(st)
                 elif op == "settle":
                     sim.settle()
             sim.settle()
